@@ -79,7 +79,9 @@ func stubDocName() string {
 
 type stubDecodeError struct{}
 
-func (stubDecodeError) Error() string { return "verif: decoder stub: further documents are not modelled" }
+func (stubDecodeError) Error() string {
+	return "verif: decoder stub: further documents are not modelled"
+}
 
 func stubJSONDecode(d *json.Decoder, v any) error {
 	name := stubDocName()
@@ -127,8 +129,8 @@ func stubYAMLUnmarshal(data []byte, v any) error {
 }
 
 var verifReplacements = map[string]any{
-	"(*gopkg.in/yaml.v3.Decoder).Decode": stubYAMLDecode,
-	"gopkg.in/yaml.v3.Unmarshal":         stubYAMLUnmarshal,
+	"(*gopkg.in/yaml.v3.Decoder).Decode":           stubYAMLDecode,
+	"gopkg.in/yaml.v3.Unmarshal":                   stubYAMLUnmarshal,
 	"(*encoding/json.Decoder).Decode":              stubJSONDecode,
 	"encoding/json.Unmarshal":                      stubJSONUnmarshal,
 	"(*github.com/BurntSushi/toml.Decoder).Decode": stubTOMLDecode,
